@@ -8,6 +8,13 @@ CHECKS = {
  "C01": dict(category="model_checking", technique="bounded-exhaustive enumeration of pattern ASTs, spellings and rule sets; every input of length <= L plus a transition cover run through yylex() in lock step with an independently built reference DFA",
    text="Every pattern AST up to k operators, every documented spelling (against all 256 bytes), every ordered pair/triple of an overlapping pool and three array-growing rule sets are compiled by the flex under test; for each, all byte strings up to length L over one representative per byte class plus a transition cover of the reference automaton are scanned by the real yylex() and compared token by token (rule, yyleng, yytext) with a reference built from the AST by textbook NFA/DFA construction.",
    note="Reference semantics (vflib/refsem.py) written from the manual; m4/gcc/libc trusted; nullable top-level patterns excluded (loop forever by design).", design="2/C01"),
+
+ "C03": dict(category="model_checking", technique="exhaustive enumeration of environment answers: every composition of the input length as read sizes x buffer sizes x input sources, run through yylex() against the whole-input reference; running-maximum look-ahead oracle for interactive scanners",
+   text="For five scanners (backing up, long line tokens, fixed and variable trailing context, ^ rules; plus REJECT and yymore variants) and every input up to length L, every sequence of read sizes (all 2^(n-1) compositions), buffer sizes 1..8 and default, and every source (user routine, stdio fread, interactive getc loop, read(2), yy_scan_string/bytes/buffer) is executed on the real scanner (C non-reentrant, reentrant, c99; compressed, full and fast tables) and compared with the reference token stream; with one byte per request the bytes handed over when each action runs are bounded by the point where the reference DFA can no longer extend the match.",
+   note="Reference DFA as for C01; tokens 5x the buffer explored with <= 2 departures from 'all at once' and with 1- and 2-byte reads rather than all compositions.", design="2/C03"),
+ "C08": dict(category="model_checking", technique="deviation-bounded depth-first exploration of action-operation histories (yyless/yyunput/yyinput/yymore/return, arguments exhaustive, up to two operations per action) on the real scanner against a deque reference model, iterating the bound 0..k",
+   text="Three scanners x %pointer/%array x non-reentrant/reentrant/c99 x yylineno on/off x buffer sizes {default,1,2,3,4}: for every input up to length L every history with at most k operations (k=2 quick, 3 thorough; each argument value enumerated) is executed through yylex(); after every action and every operation yytext, yyleng, the return value of yyinput, yylineno and finally the consumed stream are compared with the model.",
+   note="Combinations the manual leaves undefined are not generated (yytext after yyunput under %pointer, yyless below the yymore prefix or after yyunput/yyinput in one action, yymore with yyinput/yyunput in one action); push-back overflow accepted only for explicit buffers <= 8 bytes.", design="2/C08"),
 }
 
 NOT_YET = "check under construction in this round; will be claimed once it has run end-to-end on the unchanged tree"
